@@ -1988,6 +1988,7 @@ class locked_ref:
         self._file: _GitFile | None = None
         self._realname: Ref | None = None
         self._deleted = False
+        self._written = False
 
     def __enter__(self) -> Self:
         """Enter the context manager and acquire the lock.
@@ -2025,7 +2026,9 @@ class locked_ref:
           traceback: Traceback if an exception occurred
         """
         if self._file:
-            if exc_type is not None or self._deleted:
+            if exc_type is not None or self._deleted or not self._written:
+                # (nothing written: installing the empty lock file would
+                # replace the ref by an empty file)
                 self._file.abort()
             else:
                 self._file.close()
@@ -2070,6 +2073,7 @@ class locked_ref:
         self._file.truncate()
         self._file.write(new_ref + b"\n")
         self._deleted = False
+        self._written = True
 
     def set_symbolic_ref(self, target: Ref) -> None:
         """Make this ref point at another ref.
@@ -2085,6 +2089,7 @@ class locked_ref:
         self._file.truncate()
         self._file.write(SYMREF + target + b"\n")
         self._deleted = False
+        self._written = True
 
     def delete(self) -> None:
         """Delete the ref file while holding the lock."""
